@@ -17,13 +17,14 @@ TRUSTED = ["Coq kernel, vm_compute", "harness (generated producers/consumers/gen
            "Path.glob returns the files matching the pattern; bodies sort what they receive",
            "error paths of recreate_dag and third-party provisional node types are not modelled (partial)"]
 O = EO.O
+SPELLINGS = ["rel", "rel_updown", "abs_updown"]
 PLAIN = {"force": False, "dry_run": False, "max_failures": None, "expression": "", "marker_expression": "", "capture": "fd"}
 
 
 def tk(i, **kw):
     d = {"id": i, "module": 1, "deps": [], "prods": [], "mver": 0, "skip": False, "skipifs": [], "persist": False, "prio": 0,
          "marks": [], "attrs": [], "after_fn": [], "after_expr": None, "use_decorator": False,
-         "pdeps": [], "pprods": [], "is_gen": False, "clears": False}
+         "pdeps": [], "pprods": [], "is_gen": False, "clears": False, "two_stage": False, "pspell": {}}
     d.update(kw)
     return d
 
@@ -46,7 +47,7 @@ def gen_project(rng):
             nid += 1
             tasks.append(tk(tid, pdeps=[rng.choice(pats)], deps=[102] if rng.random() < 0.3 else [], prods=[nid]))
         elif kind == "gen":
-            tasks.append(tk(tid, pdeps=[rng.choice(pats)], is_gen=True))
+            tasks.append(tk(tid, pdeps=[rng.choice(pats)], is_gen=True, two_stage=rng.random() < 0.5))
         else:
             nid += 1
             tasks.append(tk(tid, deps=[rng.choice(sources)], prods=[nid]))
@@ -54,6 +55,11 @@ def gen_project(rng):
     if rng.random() < 0.3:      # a consumer of a pattern nobody produces (files placed by the user)
         nid += 1
         tasks.append(tk(tid, pdeps=[9], prods=[nid]))
+    # the same directory spelled in different ways by different tasks
+    for t in tasks:
+        for p in t["pdeps"] + t["pprods"]:
+            if rng.random() < 0.5:
+                t["pspell"][str(p)] = rng.choice(SPELLINGS)
     rng.shuffle(tasks)
     return tasks, sources
 
@@ -95,7 +101,8 @@ def gen_history(rng, idx, base):
 
 
 def ptask_term(t, V):
-    base = C("mkTask", t["id"], V, t["deps"], t["prods"], [], Raw("None"), bool(t["skip"]), [], bool(t["persist"]), Zi(0), [], [])
+    base = C("mkTask", t["id"], V, t["deps"], t["prods"], [], Raw("None"), bool(t["skip"]), [], bool(t["persist"]), Zi(0), [],
+             [[2]] if t.get("two_stage") else [])
     return C("mkPT", base, t["pdeps"], t["pprods"], bool(t["is_gen"]), bool(t["clears"]))
 
 
@@ -136,6 +143,19 @@ def o_c18(cimp, ctx):
             probs.append((f"the function of task {t} ran {starts.count(t)} times in one build", ("F2",) if any(x["id"] == t and x["is_gen"] for x in tasks) else ()))
     files = cimp["files"]
     rep = dict(cimp["reports"])
+    # generated pipelines: the task consuming a generated task's product comes after it and reflects it
+    order = [t for t, _ in cimp["reports"]]
+    for t2 in [t for t in order if 40000 <= t < 50000]:
+        t1 = t2 - 20000
+        if t1 in order and order.index(t2) < order.index(t1):
+            probs.append((f"generated task {t2} was handled before generated task {t1} whose product it consumes", ()))
+        k = t2 - 40000
+        if rep.get(t2) in (O["SUCCESS"], O["SKIP_UNCHANGED"]) and rep.get(t1) in (O["SUCCESS"], O["SKIP_UNCHANGED"]) \
+                and cimp["exit"] == 0 and not cfg["dry_run"]:
+            V = next(iter(ctx["raw"]["mods"].values()))[0]
+            mid = files.get(30000 + k)
+            if isinstance(mid, int) and files.get(50000 + k) != verif_rt.hbody(t2, V, [mid], 50000 + k):
+                probs.append((f"generated task {t2} holds a product that does not reflect the product of generated task {t1}", ()))
     for t in tasks:
         i = t["id"]
         if t["is_gen"] or not t["pdeps"] or not t["prods"]:
@@ -239,7 +259,7 @@ def run(out, tier, seed, proof):
             nb += 1
             ci_cmp = dict(cimp, effects=[]); cm_cmp = dict(cmod, effects=[])
             d = EC.compare(ci_cmp, cm_cmp)
-            out.case({"tasks": [{k: t[k] for k in ("id", "deps", "prods", "pdeps", "pprods", "is_gen", "clears")} for t in op["tasks"]],
+            out.case({"tasks": [{k: t[k] for k in ("id", "deps", "prods", "pdeps", "pprods", "is_gen", "clears", "two_stage", "pspell")} for t in op["tasks"]],
                       "cfg": op["cfg"], "reports": cimp["reports"], "i": (ci, bi)}, nontrivial=len(cimp["reports"]) > 0)
             for t, oc in cimp["reports"]:
                 out.count("outcome_" + EC.OUTCOMES[oc])
@@ -256,4 +276,4 @@ def run(out, tier, seed, proof):
     out.coverage["builds_compared"] = nb
     out.coverage["traces_validated_against_impl"] = len(idx)
     out.sample({"history": [o if o["op"] != "build" else {"op": "build", "cfg": o["cfg"],
-                "tasks": [{k: t[k] for k in ("id", "deps", "prods", "pdeps", "pprods", "is_gen", "clears")} for t in o["tasks"]]} for o in cases[0]["ops"]]})
+                "tasks": [{k: t[k] for k in ("id", "deps", "prods", "pdeps", "pprods", "is_gen", "clears", "two_stage", "pspell")} for t in o["tasks"]]} for o in cases[0]["ops"]]})
